@@ -2,9 +2,10 @@ SPECIFICATION FairSpec
 CONSTANTS
   Guids = {"g1", "g2"}
   RuleIds = {"r1"}
+  Contents = {"c1"}
   Versions = {"2.0"}
   ModeOf <- MCModeOf
-  RulesKeyedOnIdOnly = FALSE
+  RulesKey = "item"
   IdsIdentifyContent = TRUE
   InitScenarios = {"fresh", "haskey", "unreadable", "rotated"}
   InitDocs <- DocsOne
